@@ -34,6 +34,9 @@ pub struct SignedDataParts {
     pub crls: Vec<Vec<u8>>,
     pub sid: Vec<u8>,
     pub signature: Vec<u8>,
+    /// how the two SHA-256 algorithm identifiers are written: parameters absent or NULL (RFC 5754 section 2: both forms must be
+    /// accepted), in the digestAlgorithms set and in the SignerInfo - "aa", "nn", "na", "an"
+    pub algform: String,
 }
 
 /// The bytes a signature over the signed attributes covers: the DER SET OF encoding (tag 0x31).
@@ -42,11 +45,13 @@ pub fn attrs_to_sign(attrs: &[Vec<u8>]) -> Vec<u8> {
 }
 
 pub fn signed_data(p: &SignedDataParts) -> Vec<u8> {
-    let alg_sha256 = der::seq(&[der::oid(OID_SHA256)]);
+    let alg = |null: bool| if null { der::seq(&[der::oid(OID_SHA256), der::null()]) } else { der::seq(&[der::oid(OID_SHA256)]) };
+    let f = p.algform.as_bytes();
+    let alg_sha256 = alg(f.first() == Some(&b'n'));
     let signer_info = der::seq(&[
         der::uint(3),
         der::ctx(0, false, &p.sid),
-        alg_sha256.clone(),
+        alg(f.get(1) == Some(&b'n')),
         der::ctx(0, true, &p.attrs.concat()),
         der::seq(&[der::oid(OID_RSA), der::null()]),
         der::octets(&p.signature),
